@@ -469,7 +469,14 @@ func checkC11(p *Program, r *Report) {
 	}
 	r.Floor("C11.shape", 18)
 
-	c11pack(p, r, nb, nf)
+	roots := []*ssa.Function{nb, nf}
+	if ctor := p.Func("merkleblock", "NewMerkleBlockFromMsg"); ctor != nil {
+		roots = append(roots, ctor)
+	}
+	flagPackRule(p, r, "C11.pack", roots, 3, 5)
+	// the set both builders prove is the scanner's: its spender index must not lose spenders
+	spenderIndexRule(p, r, "C11.select")
+	r.Floor("C11.select", 2)
 	c11sibling(p, r, nb, nf)
 	c11accepts(p, r, ext)
 	c11order(p, r)
@@ -566,12 +573,15 @@ func anonymise(t *Term) string {
 }
 
 // packSite: a store Flags[i/8] |= bits[i] << (i%8) (builder) or a test Flags[i/8] & (1 << (i%8)) (extractor).
-func c11pack(p *Program, r *Report, nb, nf *ssa.Function) {
+func flagPackRule(p *Program, r *Report, rule string, roots []*ssa.Function, minSites, floor int) {
 	type site struct {
 		fn            *ssa.Function
 		byteIdx, bitP string
 		size          string
 		pos           token.Pos
+		table         bool // unpacking through a byte → 8 bits expansion table
+		tableOK       bool
+		tableHow      string
 	}
 	var sites []site
 	scan := func(root *ssa.Function) {
@@ -612,6 +622,52 @@ func c11pack(p *Program, r *Report, nb, nf *ssa.Function) {
 									}
 								}
 								sites = append(sites, s)
+							}
+						}
+					}
+					// extractor, table form: copy(bits[8k:], T[Flags[k]][:]) with T[f][b] = (f>>b)&1
+					if c, ok := in.(*ssa.Call); ok && isBuiltin(&c.Call, "copy") {
+						src, ok1 := c.Call.Args[1].(*ssa.Slice)
+						dst, ok2 := c.Call.Args[0].(*ssa.Slice)
+						if ok1 && ok2 {
+							if row, ok := src.X.(*ssa.IndexAddr); ok {
+								if g, ok := row.X.(*ssa.Global); ok {
+									if ld, ok := stripIntConv(row.Index).(*ssa.UnOp); ok && ld.Op == token.MUL {
+										if fia, ok := ld.X.(*ssa.IndexAddr); ok && strings.Contains(exprString(fia.X), "Flags") {
+											s := site{fn: fn, pos: c.Pos(), table: true}
+											t2, known := p.constIntTable2(g)
+											s.tableOK = known && len(t2) == 256 && p.assignedOnlyByInit(g)
+											s.tableHow = fmt.Sprintf("table %s: 256 rows of 8 bits, row f holds (f>>b)&1 at position b", g.Name())
+											if !known {
+												s.tableHow = "contents of " + g.Name() + " do not fold to constants"
+											}
+											for f := 0; s.tableOK && f < 256; f++ {
+												if len(t2[f]) != 8 {
+													s.tableOK, s.tableHow = false, fmt.Sprintf("row %d of %s has %d entries", f, g.Name(), len(t2[f]))
+													break
+												}
+												for b := 0; b < 8; b++ {
+													if t2[f][b] != int64((f>>uint(b))&1) {
+														s.tableOK, s.tableHow = false, fmt.Sprintf("%s[%#x][%d] = %d, want %d", g.Name(), f, b, t2[f][b], (f>>uint(b))&1)
+													}
+												}
+											}
+											// destination offset 8k for the same k, whole row copied
+											kTerm := tb.Term(fia.Index).String()
+											lowTerm := ""
+											if dst.Low != nil {
+												lowTerm = tb.Term(dst.Low).String()
+											}
+											if s.tableOK && !(lowTerm == "*("+kTerm+",#8)" || lowTerm == "*(#8,"+kTerm+")" || lowTerm == "<<("+kTerm+",#3)") {
+												s.tableOK, s.tableHow = false, "row of byte "+kTerm+" is copied to offset "+lowTerm+", not 8·"+kTerm
+											}
+											if s.tableOK && (src.Low != nil || src.High != nil || dst.High != nil) {
+												s.tableOK, s.tableHow = false, "only part of the row is copied"
+											}
+											sites = append(sites, s)
+										}
+									}
+								}
 							}
 						}
 					}
@@ -657,23 +713,32 @@ func c11pack(p *Program, r *Report, nb, nf *ssa.Function) {
 			}
 		}
 	}
-	scan(nb)
-	scan(nf)
-	if ctor := p.Func("merkleblock", "NewMerkleBlockFromMsg"); ctor != nil {
-		scan(ctor)
+	for _, root := range roots {
+		scan(root)
 	}
-	if len(sites) < 3 {
-		r.Unresolved("C11.pack", fmt.Sprintf("flag packing / unpacking sites (found %d of 3)", len(sites)))
+	if len(sites) < minSites {
+		r.Unresolved(rule, fmt.Sprintf("flag packing / unpacking sites (found %d of %d)", len(sites), minSites))
 		return
 	}
+	ref := sites[0]
 	for _, s := range sites {
-		ok := s.byteIdx == sites[0].byteIdx && s.bitP == sites[0].bitP && strings.HasPrefix(s.byteIdx, "/(ind(#0,#1),#8)") && strings.HasPrefix(s.bitP, "%(ind(#0,#1),#8)")
-		r.Add("C11.pack", FnName(s.fn), "flag bit i lives in byte i/8 at bit position i%8", s.pos, ok, "byte "+s.byteIdx+", bit "+s.bitP)
-		if s.size != "" {
-			r.Add("C11.pack", FnName(s.fn), "flag bytes number ⌈bits/8⌉", s.pos, strings.HasPrefix(s.size, "/(+(#7,len(") || strings.HasPrefix(s.size, "/(+(len("), s.size)
+		if !s.table {
+			ref = s
+			break
 		}
 	}
-	r.Floor("C11.pack", 5)
+	for _, s := range sites {
+		if s.table {
+			r.Add(rule, FnName(s.fn), "flag byte k expands to bits 8k..8k+7, least significant first (table form)", s.pos, s.tableOK, s.tableHow)
+			continue
+		}
+		ok := s.byteIdx == ref.byteIdx && s.bitP == ref.bitP && strings.HasPrefix(s.byteIdx, "/(ind(#0,#1),#8)") && strings.HasPrefix(s.bitP, "%(ind(#0,#1),#8)")
+		r.Add(rule, FnName(s.fn), "flag bit i lives in byte i/8 at bit position i%8", s.pos, ok, "byte "+s.byteIdx+", bit "+s.bitP)
+		if s.size != "" {
+			r.Add(rule, FnName(s.fn), "flag bytes number ⌈bits/8⌉", s.pos, strings.HasPrefix(s.size, "/(+(#7,len(") || strings.HasPrefix(s.size, "/(+(len("), s.size)
+		}
+	}
+	r.Floor(rule, floor)
 }
 
 func c11sibling(p *Program, r *Report, nb, nf *ssa.Function) {
